@@ -841,6 +841,20 @@ VARIANTS = [
                (MRO, _DEDUP_TAIL,
                 "    seen.add(s)\n  return seq if len(seen) == len(seq) else result\n"),
                (MRO, _ROWS, "  seqs = [Dedup(list(s)) for s in input_seqs]\n")]},
+    {"name": "module-level-list-handed-to-the-consuming-merge", "rule": "R10.22",
+     "expect": "fire",
+     "edits": [(MRO, "def _ComputeMRO(t, mros, lookup_ast):\n",
+                "_NO_BASES = []\n\n\ndef _ComputeMRO(t, mros, lookup_ast):\n"),
+               (MRO, "  return tuple(MROMerge(base_mros + [_Degenerify(cls.bases)]))",
+                "  return tuple(MergeSequences(base_mros + [_NO_BASES]))")]},
+    {"name": "twin-head-removed-with-pop", "rule": "R10.22", "file": MRO, "expect": "silent",
+     "old": "            del other_seq[0]", "new": "            other_seq.pop(0)"},
+    {"name": "twin-memo-lookup-via-get", "rule": "R10.22", "file": MRO, "expect": "silent",
+     "old": "        if base in mros:\n          if mros[base] is None:\n"
+            "            raise MROError([[t]])\n          else:\n"
+            "            base_mro = mros[base]\n",
+     "new": "        if base in mros:\n          base_mro = mros.get(base)\n"
+            "          if base_mro is None:\n            raise MROError([[t]])\n"},
     {"name": "twin-merge-without-in-place-removal", "rule": "R10.22", "file": MRO,
      "expect": "silent",
      "old": "        for other_seq in seqs:\n          if other_seq and other_seq[0] == cand:\n"
